@@ -46,6 +46,7 @@ CONSTANTS
     DevPayoutCountUnchecked,    \* TRUE: self-test mutation -- the miner payout COUNT of a checkpoint block is not checked
     ZHangup,    \* TRUE: a Byzantine peer may hang up right after delivering its data, before the victim's verdict
     DevBanOnlyIfConnected,    \* TRUE: self-test mutation -- Syncer.ban returns early for a peer that is already disconnected
+    DevRollbackToBase,        \* TRUE: self-test mutation -- a failed reorg in AddValidatedV2Blocks rolls back to the batch's base, not to the old tip
     DevBanLastBatchPeer,      \* TRUE: named deviation -- a failed reorg bans the peer of the batch being added, whoever served the invalid block
     DevSkipKnownBelowTip,     \* TRUE: self-test mutation -- AddBlocks skips ANY re-delivered block with a stored state at or below the tip height
     DevOutlineAttachByHeight, \* TRUE: self-test mutation -- a relayed outline 'attaches' if its height is tip height + 1
@@ -89,7 +90,7 @@ NoSync == [on |-> FALSE, src |-> CHOOSE n \in Nodes : TRUE, base |-> G, top |-> 
 Lowest(n) == T.h[BaseOf[n]]
 \* b is on n's best chain and inside the range of heights n stores
 OnBest(n, b) == b \in AncSet(T, tip[n]) /\ T.h[b] >= Lowest(n)
-HeaderValid(b) == T.cls[b] \in {"ok", "bad"}
+HeaderValid(b) == T.cls[b] \in {"ok", "bad", "asif"}
 
 \* an assignment is admissible if one tip is sufficiently heavier than all the others (the
 \* premise "the heaviest valid chain among them" read with core's reorg threshold)
@@ -293,14 +294,23 @@ ApplyBatch(n, w, bs, void, tw, hung) ==
         who == Culprit(n, w, g1, bs[Len(bs)]) IN
     \* known[n] holds every block whose (header) state is stored -- including blocks that were submitted,
     \* failed full validation and were rolled back (chain/manager.go:276-278): "stored" is not "validated"
-    IF validated /\ ~DevNoPreValidation /\ ~void /\ \E i \in DOMAIN bs : T.cls[bs[i]] # "ok" /\ (DevSkipSeenValidation => bs[i] \notin known[n])
+    \* an "asif" block (built on an invalid ancestor as if it were valid) PASSES pre-validation: the state it is
+    \* checked against is derived from the peer's checkpoint; the invalid ancestor is found when the reorg applies
+    \* the unvalidated stored prefix -- and then the manager must return to the tip it had (tip' = tip)
+    IF validated /\ ~DevNoPreValidation /\ ~void /\ \E i \in DOMAIN bs : T.cls[bs[i]] \notin {"ok", "asif"} /\ (DevSkipSeenValidation => bs[i] \notin known[n])
       THEN \* consensus.ValidateBlock against the checkpoint-derived state fails: ban, batch discarded
            /\ BanUpdH(n, w, hung)
            /\ misb' = IF w \in Z THEN misb \cup {<<n, w>>} ELSE misb
            /\ UNCHANGED <<known, tip, sync, garb>>
            /\ act' = Lbl([op |-> "Fetch", n |-> n, w |-> w, res |-> "invalid"])
-      ELSE LET r == IF validated THEN AddValidatedRes(Seen(n, g1), known[n], tip[n], bs)
-                                 ELSE AddBlocksRes(Seen(n, g1), known[n], tip[n], bs) IN
+      ELSE LET r0 == IF validated THEN AddValidatedRes(Seen(n, g1), known[n], tip[n], bs)
+                                  ELSE AddBlocksRes(Seen(n, g1), known[n], tip[n], bs)
+               \* mutation: the failed reorg is "undone" towards the batch's base, which lies on the rejected fork:
+               \* that second reorg fails at the invalid block too and leaves the tip at its parent
+               badp == {x \in Above(T, bs[1], AncSet(T, tip[n])) : Seen(n, g1).cls[x] # "ok"}
+               low  == CHOOSE x \in badp : \A y \in badp : T.h[x] <= T.h[y]
+               r == IF DevRollbackToBase /\ validated /\ r0.err /\ badp # {}
+                      THEN [known |-> r0.known, tip |-> T.par[low], err |-> TRUE] ELSE r0 IN
            /\ known' = [known EXCEPT ![n] = r.known]
            /\ tip' = [tip EXCEPT ![n] = r.tip]
            /\ garb' = [garb EXCEPT ![n] = g1]
